@@ -77,3 +77,40 @@ func VerifC05GlobalPushContext(s *DiscoveryServer) *model.PushContext {
 func VerifC05NeverRemoveDelta(url string) bool {
 	return neverRemoveDelta(url)
 }
+
+// VerifC05QueueServer builds a DiscoveryServer that holds only the connection table, the push queue
+// and the environment (global push context): what addCon, Clients/AllClients, AdsPushAll/StartPush
+// and globalPushContext touch.
+func VerifC05QueueServer(env *model.Environment) *DiscoveryServer {
+	return &DiscoveryServer{Env: env, adsClients: map[string]*Connection{}, pushQueue: NewPushQueue()}
+}
+
+// VerifC05AddCon exposes addCon.
+func VerifC05AddCon(s *DiscoveryServer, con *Connection) {
+	s.addCon(con.ID(), con)
+}
+
+// VerifC05DrainQueue dequeues every pending push (Dequeue + MarkDone, what doSendPushes does) and
+// returns, per connection id, the PushVersion of the request that was queued for it.  Only for
+// servers without a running sendPushes loop (VerifC05QueueServer).
+func VerifC05DrainQueue(s *DiscoveryServer) map[string]string {
+	out := map[string]string{}
+	for s.pushQueue.Pending() > 0 {
+		con, req, shutdown := s.pushQueue.Dequeue()
+		if shutdown {
+			break
+		}
+		v := ""
+		if req != nil && req.Push != nil {
+			v = req.Push.PushVersion
+		}
+		out[con.ID()] = v
+		s.pushQueue.MarkDone(con)
+	}
+	return out
+}
+
+// VerifC05ShutdownQueue shuts the push queue of a VerifC05QueueServer down.
+func VerifC05ShutdownQueue(s *DiscoveryServer) {
+	s.pushQueue.ShutDown()
+}
